@@ -14,8 +14,8 @@
 (* (typed with tools/gen_values.py)                                                         *)
 EXTENDS Naturals, Sequences
 
-CoreIds == {"w", "two", "empty", "bsn", "nl", "numstr", "int", "float", "t", "null", "ref", "uni", "flow", "chain", "syn", "tens", "qop", "tens3", "slashes", "nlsp", "ann", "ctor1", "holo", "l0", "l2", "l3", "lnest", "lmatrix", "lmap", "lfalsy", "lq", "lslash", "lexpr", "z1", "zpy", "ztrail", "zempty"}
-FullIds == {"three", "quote", "bslash", "tab", "truestr", "nullstr", "vsstr", "truedot", "neg", "zero", "one", "fzero", "fone", "big", "exp", "negexp", "f", "ver", "verpre", "var", "vartyped", "ref2b", "path", "hyph", "colon", "pct", "emoji", "alt", "con", "cat", "at", "mixed", "syn3", "slash2", "relpath", "abspath", "docpath", "nllead", "ctor2", "ctor0", "holoenum", "l1", "lnullmap", "lemptymap", "ltq", "lann", "lpattern", "z4", "ztab", "zblank3", "l01", "zblank"}
+CoreIds == {"w", "two", "empty", "bsn", "nl", "numstr", "int", "float", "posexp", "t", "null", "ref", "uni", "flow", "chain", "syn", "tens", "qop", "tens3", "slashes", "nlsp", "ann", "ctor1", "holo", "l0", "l2", "l3", "lnest", "lmatrix", "lmap", "lfalsy", "lq", "lslash", "lexpr", "z1", "zpy", "ztrail", "zempty"}
+FullIds == {"three", "quote", "bslash", "tab", "truestr", "nullstr", "vsstr", "truedot", "neg", "zero", "one", "fzero", "fone", "big", "exp", "negexp", "bigexp", "intexp", "f", "ver", "verpre", "var", "vartyped", "ref2b", "path", "hyph", "colon", "pct", "emoji", "alt", "con", "cat", "at", "mixed", "syn3", "slash2", "relpath", "abspath", "docpath", "nllead", "ctor2", "ctor0", "holoenum", "l1", "lnullmap", "lemptymap", "ltq", "lann", "lpattern", "z4", "ztab", "zblank3", "l01", "zblank"}
 ValIds == CoreIds \cup FullIds
 ZoneIds == {"z1", "zpy", "z4", "ztrail", "zempty", "ztab", "zblank3", "zblank"}
 ListIds == {"holo", "holoenum", "l0", "l1", "l2", "l3", "lnest", "lmatrix", "lmap", "lfalsy", "lnullmap", "lemptymap", "lq", "ltq", "lslash", "lexpr", "lann", "lpattern", "l01"}
@@ -45,6 +45,9 @@ Abs(v) ==
     [] v = "float" -> [t |-> "float", s |-> "3.14", xs |-> <<>>]
     [] v = "exp" -> [t |-> "float", s |-> "1000.0", xs |-> <<>>]
     [] v = "negexp" -> [t |-> "float", s |-> "-2.5e-07", xs |-> <<>>]
+    [] v = "posexp" -> [t |-> "float", s |-> "2.5e-07", xs |-> <<>>]
+    [] v = "bigexp" -> [t |-> "float", s |-> "1.5e+16", xs |-> <<>>]
+    [] v = "intexp" -> [t |-> "float", s |-> "1e+22", xs |-> <<>>]
     [] v = "t" -> [t |-> "bool", s |-> "true", xs |-> <<>>]
     [] v = "f" -> [t |-> "bool", s |-> "false", xs |-> <<>>]
     [] v = "null" -> [t |-> "null", s |-> "", xs |-> <<>>]
@@ -143,6 +146,12 @@ Spell(v) ==
     [] v = "float" -> <<<<[k |-> "first", c |-> <<"3.14">>]>>>>
     [] v = "exp" -> <<<<[k |-> "first", c |-> <<"1e3">>]>>>>
     [] v = "negexp" -> <<<<[k |-> "first", c |-> <<"-2.5e-07">>]>>>>
+    [] v = "posexp" -> <<<<[k |-> "first", c |-> <<"2.5e-07">>]>>,
+        <<[k |-> "first", c |-> <<"0.00000025">>]>>>>
+    [] v = "bigexp" -> <<<<[k |-> "first", c |-> <<"1.5e+16">>]>>,
+        <<[k |-> "first", c |-> <<"15000000000000000.0">>]>>>>
+    [] v = "intexp" -> <<<<[k |-> "first", c |-> <<"1e+22">>]>>,
+        <<[k |-> "first", c |-> <<"1e22">>]>>>>
     [] v = "t" -> <<<<[k |-> "first", c |-> <<"true">>]>>>>
     [] v = "f" -> <<<<[k |-> "first", c |-> <<"false">>]>>>>
     [] v = "null" -> <<<<[k |-> "first", c |-> <<"null">>]>>>>
